@@ -83,6 +83,13 @@ unsigned int g_tb_calls, g_ss_calls, g_ss_seq, g_wi_calls, g_wi_seq, g_zp_calls,
 unsigned long long g_tb_off, g_wi_size, g_wi_ino, g_zp_off, g_pu_start, g_pu_end, g_pu_isize, g_pu_ino;
 const void *g_pu_inode;
 
+/* named loop anchors of ext2fs_file_read / ext2fs_file_write (hooks-pending/fio.diff): unused by this unit */
+#ifndef VERIF_INV_FILE_READ
+#define VERIF_INV_FILE_READ
+#endif
+#ifndef VERIF_INV_FILE_WRITE
+#define VERIF_INV_FILE_WRITE
+#endif
 #include "config.h"
 #include "ext2_fs.h"
 #include "ext2fs.h"
